@@ -109,6 +109,16 @@ def menu():
     c('cnfgen', 'php 5 4 -T shuffle')
     c('cnfgen', 'op 6 -T shuffle -T xor 2')
     c('cnfgen', 'php 4 3 -T xorcomp 10 3')
+    # random bipartite graphs given explicitly to a transformation (they are
+    # built while the -T part of the command line is parsed)
+    c('cnfgen', 'php 4 3 -T xorcomp glrd 12 8 2')
+    c('cnfgen', 'php 4 3 -T majcomp glrp 12 9 .5')
+    c('cnfgen', 'php 4 3 -T xorcomp glrm 12 8 30')
+    c('cnfgen', 'php 4 3 -T majcomp regular 12 6 3')
+    c('cnfgen', 'php 4 3 -T xorcomp empty 12 8 addedges 25')
+    c('cnfgen', 'php 4 3 -T xorcomp shift 12 8 0 1 plantbiclique 3 3')
+    c('cnfgen', 'randkcnf 3 6 8 -T xorcomp glrd 6 5 2 -T shuffle')
+    c('cnfgen', 'tseitin random gnm 6 9 -T majcomp glrd 9 7 3')
     c('cnfgen', 'php 4 3 -T majcomp 10 3')
     c('cnfgen', 'randkcnf 3 10 20 -T shuffle -T or 2')
     c('cnfgen', 'peb pyramid 3 -T shuffle -p')
